@@ -157,7 +157,10 @@ pub fn run_case(part: &Part, case: &Case, ctx: &Ctx) -> Outcome {
                 None => ("?".to_string(), "?".to_string()),
             };
             if location.starts_with("src/") {
-                println!("HARNESS-ERROR panic in the harness at {}: {} (case {:?})", location, message, case);
+                let path = format!("{}/replays/tmp-harness-error-{:016x}.json", verif_root(), fnv_case(case));
+                let _ = std::fs::create_dir_all(format!("{}/replays", verif_root()));
+                let _ = std::fs::write(&path, serde_json::to_string(&json!({"part": part.name, "case": case})).unwrap());
+                println!("HARNESS-ERROR panic in the harness at {}: {} (case saved to {})", location, message, path);
                 std::process::exit(2);
             }
             let mut out = Outcome::default();
